@@ -33,6 +33,10 @@ func init() {
 			"\t} else if s.slots[ix].seq != seq {\n\t\tif err := s.checkSize(slot); err != nil {\n\t\t\treturn false, err\n\t\t}\n", "\t} else if s.slots[ix].seq != seq {\n", "C20-R2"},
 		mutant{"duplicate overwrites the stored slot", "sequenced_slots.go", "\t\ts.slots[ix] = newSlot\n\t\treturn true, nil\n\t}\n\n\treturn false, nil", "\t\ts.slots[ix] = newSlot\n\t\treturn true, nil\n\t}\n\n\ts.slots[ix] = newSlot\n\treturn false, nil", "C20-R2"},
 		mutant{"offsetter reset while slots remain", "slot_sequencer.go", "\t\tif s.container.Size() == 0 {\n\t\t\ts.offsetter.Reset()\n\t\t}", "\t\tif s.container.Size() <= 1 {\n\t\t\ts.offsetter.Reset()\n\t\t}", "C20-R3"},
+		mutant{"Reset skips the offsetter once the container is empty", "slot_sequencer.go",
+			"\ts.offsetter.Reset()\n\ts.container.Reset()\n\ts.bytes = 0", "\ts.container.Reset()\n\tif s.container.Size() > 0 {\n\t\ts.offsetter.Reset()\n\t}\n\ts.bytes = 0", "C20-R1"},
+		mutant{"tree reset clears a power-of-two prefix only", "util/fenwick_tree.go",
+			"\tdata := t.data\n\tfor i := range data {\n\t\tdata[i] = 0\n\t}", "\tdata := t.data\n\tif len(data) == 0 {\n\t\treturn\n\t}\n\tdata[0] = 0\n\tfor k := 1; 2*k <= len(data); k *= 2 {\n\t\tcopy(data[k:2*k], data[:k])\n\t}", "C20-R1"},
 		mutant{"offsetter reset before the popped slot is translated", "slot_sequencer.go",
 			"\t\tslot = s.offsetter.Offset(slot)\n\n\t\tif s.container.Size() == 0 {\n\t\t\ts.offsetter.Reset()\n\t\t}\n\n\t\ts.bytes -= slot.Length", "\t\ts.bytes -= slot.Length\n\t\tif s.container.Size() == 0 {\n\t\t\ts.offsetter.Reset()\n\t\t}\n\t\tslot = s.offsetter.Offset(slot)", "C20-R3"},
 		mutant{"Pop returns the next higher sequence number", "sequenced_slots.go",
@@ -66,7 +70,7 @@ func runC20(c *Ctx) {
 	isIndexOf := func(v ssa.Value) bool { return loadedField(stripConv(v)) == indexF }
 
 	// ------------------------------------------------------------------------------------------------ R1
-	c.rule("C20-R1", "Bytes() accounting follows the outcome of the container operations; Reset resets everything", 5)
+	c.rule("C20-R1", "Bytes() accounting follows the outcome of the container operations; Reset resets everything, always, and the tree clears every element", 9)
 	{
 		push := sm("Push")
 		var cpush *ssa.Call
@@ -127,6 +131,61 @@ func runC20(c *Ctx) {
 			}
 		}
 		c.check(zero && len(callsToFn(reset, om("Reset"))) > 0 && len(callsToFn(reset, cm("Reset"))) > 0, reset, "reset", reset.Pos(), "container, offsetter and counter are reset together", "Reset does not reset the container, the offsetter and the byte counter together")
+		// ... on every path (a condition evaluated after the container was emptied, say, must not skip the offsetter)
+		for _, part := range []struct {
+			what string
+			is   func(ssa.Instruction) bool
+		}{
+			{"offsetter", func(in ssa.Instruction) bool { return isCallToFn(in, om("Reset")) }},
+			{"container", func(in ssa.Instruction) bool { return isCallToFn(in, cm("Reset")) }},
+			{"byte counter", func(in ssa.Instruction) bool {
+				st, ok := in.(*ssa.Store)
+				if !ok {
+					return false
+				}
+				fv, _ := fieldAddrOf(st.Addr)
+				return fv == bytesF && isConstInt(st.Val, 0)
+			}},
+		} {
+			okp, why := mustPassAt(reset.Blocks[0], 0, part.is)
+			c.check(okp, reset, "reset "+part.what+" always", reset.Pos(), "reset on every path", "SlotSequencer.Reset does not reset the "+part.what+" on every path ("+why+"): discards recorded before the Reset survive it and slots pushed afterwards are translated by stale offsets")
+		}
+		// the tree forgets everything: every element is cleared
+		{
+			fr := tm("Reset")
+			dataF := p.Field("util", "FenwickTree", "data")
+			complete := false
+			eachInstr(fr, func(in ssa.Instruction) {
+				switch x := in.(type) {
+				case *ssa.Store:
+					ia, ok := x.Addr.(*ssa.IndexAddr)
+					if ok && loadOfField(ia.X, dataF) && isConstInt(x.Val, 0) && coversWholeSlice(ia, in.Block()) {
+						complete = true
+					}
+				case *ssa.Call:
+					if b, ok := x.Call.Value.(*ssa.Builtin); ok && b.Name() == "clear" && loadOfField(x.Call.Args[0], dataF) {
+						complete = true
+					}
+					// the doubling fill: data[0] = 0, then copy(data[k:], data[:k]) while k < len(data), k doubling
+					if b, ok := x.Call.Value.(*ssa.Builtin); ok && b.Name() == "copy" {
+						dst, ok1 := stripConv(x.Call.Args[0]).(*ssa.Slice)
+						src, ok2 := stripConv(x.Call.Args[1]).(*ssa.Slice)
+						if ok1 && ok2 && loadOfField(dst.X, dataF) && loadOfField(src.X, dataF) && dst.High == nil && dst.Low != nil && src.Low == nil && src.High != nil && stripConv(dst.Low) == stripConv(src.High) {
+							for _, l := range guardsOf(in.Block()) {
+								if op, _, y, ok := l.cmpWith(dst.Low); ok && op == token.LSS {
+									if lc, ok := stripConv(y).(*ssa.Call); ok {
+										if lb, ok := lc.Call.Value.(*ssa.Builtin); ok && lb.Name() == "len" {
+											complete = true
+										}
+									}
+								}
+							}
+						}
+					}
+				}
+			})
+			c.check(complete, fr, "tree reset", fr.Pos(), "every element of the tree is cleared", "FenwickTree.Reset does not clear every element (index 0..len-1): nodes that keep their partial sums make Sum() non-zero after a drain, and slots pushed afterwards are shifted by a phantom offset")
+		}
 		for _, g := range []struct {
 			fn   *ssa.Function
 			want string
